@@ -225,6 +225,38 @@ def check_l5(ctx: Ctx, label: str, decode, wit: dict, case_id: str | None) -> No
         ctx.ok(label, 'L5', (label, 'L5', wit.get('bytes', '')))
     if case_id is not None:
         ctx.render[case_id] = render_digest(ra)
+    check_render_order(ctx, label, decode, wit)
+
+
+FLAG_SETS = {'include_nexthop': ({}, {'include_nexthop': True}), 'generic': ({}, {'generic': True}), 'announced': ({}, {'announced': False})}
+
+
+def check_render_order(ctx: Ctx, label: str, decode, wit: dict) -> None:
+    """a rendering which takes options is a function of (bytes, options): asked with options A then B on one fresh object and
+    B then A on another, each option set gives one text.  A memo filled by whichever call comes first breaks exactly this"""
+    import inspect
+
+    try:
+        probe = decode()
+        params = inspect.signature(probe.json).parameters
+    except Exception:  # noqa
+        return
+    for flag, (A, B) in FLAG_SETS.items():
+        if flag not in params:
+            continue
+        try:
+            c, d = decode(), decode()
+            ca, cb = c.json(**A), c.json(**B)
+            db, da = d.json(**B), d.json(**A)
+        except Exception:  # noqa
+            ctx.res.count('render-order-raises:' + label)
+            continue
+        if ca != da or cb != db:
+            which = 'default' if ca != da else flag
+            ctx.bad(f'C15/render-depends-on-call-order:{label}:{flag}', f'json({which}) of the same bytes differs with the order of the calls: {ca[:80]!r} / {da[:80]!r} / {cb[:80]!r} / {db[:80]!r}', dict(wit, flag=flag), label, 'L5')
+        else:
+            ctx.ok(label, 'L5')
+            ctx.res.ok('render-order:' + flag)
 
 
 # ============================================================================== NLRI drivers
